@@ -929,6 +929,7 @@ fn process_tags(
         mem::swap(tags, remain);
         remain.clear();
     }
+    waiting.finish(context);
     Ok(bbb.clone().build())
 }
 
@@ -1025,6 +1026,14 @@ impl Waiting {
             current,
             rng_before: Box::new(context.rng_state()),
             prev_count: context.prev_count(),
+        }
+    }
+
+    /// All tags of the list are done: the previous element for what follows the list
+    /// is the last one of the list in document order, whenever it was evaluated.
+    fn finish(&self, context: &mut TransformerContext) {
+        if let Some((_, Some(prev))) = self.prev_known.iter().next_back() {
+            context.set_prev_elements(prev.clone());
         }
     }
 
